@@ -21,6 +21,30 @@ var c15Values = map[string]any{
 	"steps": []any{}, "label": "l", "key": "k",
 }
 
+// c15Variants: other well-typed values a kind-determining key may carry - present but empty, null,
+// or of another shape. Which KEYS are present decides the kind, never what they hold.
+var c15Variants = map[string][]any{
+	"plugins":  {[]any{}, obj{}, nil, obj{"p#v1": obj{"a": 1}}},
+	"command":  {"", nil},
+	"commands": {[]any{}, nil, "single"},
+	"wait":     {"w", "", true},
+	"waiter":   {"w"},
+	"block":    {"", nil},
+	"input":    {"", nil},
+	"manual":   {nil},
+	"trigger":  {""},
+	"group":    {nil, ""},
+}
+
+// c15Value: the value of key k in row idx - the minimal one two times out of three, else a variant.
+func c15Value(k string, idx int) any {
+	vs := c15Variants[k]
+	if len(vs) == 0 || (idx/3)%3 != 2 {
+		return c15Values[k]
+	}
+	return vs[(idx/9)%len(vs)]
+}
+
 func stepKind(s pipeline.Step) string {
 	switch s.(type) {
 	case *pipeline.CommandStep:
@@ -81,7 +105,7 @@ func runC15(args []string) {
 			rot := idx % (len(keys) + 1)
 			for i := range keys {
 				k := keys[(i+rot)%len(keys)]
-				pairs = append(pairs, [2]any{k, c15Values[k]})
+				pairs = append(pairs, [2]any{k, c15Value(k, idx)})
 			}
 			if t, _ := c["type"].(string); t != "<absent>" {
 				pairs = append(pairs, [2]any{"type", t})
@@ -108,7 +132,19 @@ func runC15(args []string) {
 			}
 			step = orderedJSON(pairs)
 		}
-		var doc any = obj{"steps": []any{step}}
+		// a step's kind depends on its OWN keys only: half of the rows are preceded, in the same sequence, by a
+		// (valid, warning-free) step of some family - wait, command, trigger, block, group, a scalar
+		seq := []any{step}
+		npre := 0
+		if idx%2 == 1 && nest == 0 {
+			pres := []any{
+				orderedJSON{{"wait", nil}}, orderedJSON{{"command", "pre"}}, orderedJSON{{"trigger", "pre"}}, orderedJSON{{"block", "pre"}},
+				orderedJSON{{"group", "pre"}, {"steps", []any{}}}, "wait", orderedJSON{{"plugins", []any{obj{"p#v1": nil}}}},
+			}
+			seq = []any{pres[(idx/2)%len(pres)], step}
+			npre = 1
+		}
+		var doc any = obj{"steps": seq}
 		top := idx%4 == 3
 		if ft := fl.str("top", ""); ft != "" {
 			top = ft == "1"
@@ -122,7 +158,7 @@ func runC15(args []string) {
 			doc = orderedJSON([][2]any{{"zz_toplevel", obj{"a": 1}}, {"steps", doc.(obj)["steps"]}})
 		}
 		src := string(asciiJSON(doc))
-		ev := obj{"c": c, "nest": nest, "top": top}
+		ev := obj{"c": c, "nest": nest, "top": top, "npre": npre}
 		p, msg := guarded(func() {
 			pl, err := pipeline.Parse(strings.NewReader(src))
 			ev["warn"] = warning.Is(err)
@@ -149,9 +185,9 @@ func runC15(args []string) {
 				}
 				steps = g.Steps
 			}
-			ev["nsteps"] = len(steps)
-			if len(steps) > 0 {
-				ev["kind"] = stepKind(steps[0])
+			ev["nsteps"] = len(steps) - npre
+			if len(steps) > npre {
+				ev["kind"] = stepKind(steps[len(steps)-1])
 			}
 		})
 		ev["panic"] = p
